@@ -35,6 +35,9 @@
        (norm_corresponds, wf_corresponds).
    There is NO hypothesis on the hash H: where one would be needed, the conclusion instead
    exhibits the collision.
+   (3) "typed documents" (last section): for documents written by the typed-marshalling model of
+       encoding/json over the Go types (Marshal/Typed.v, Props/C04.v) `wf` is a theorem, and the text
+       edits the reader undoes (member order of a struct, unknown members) are theorems too.
    `structural` stands for all Validate methods of header, document and signatures (one boolean),
    `calc_doc` for the document's own Calculate. *)
 From Coq Require Import List Bool Strings.Byte String.
@@ -371,4 +374,293 @@ Proof.
   split; [exact V|]. split.
   - apply reencoding_preserves_validity_real; [vm_compute; reflexivity | vm_compute; reflexivity | vm_compute; reflexivity | reflexivity | exact V].
   - intro NH. apply tampered_is_rejected_real; [vm_compute; reflexivity | vm_compute; reflexivity | exact V | vm_compute; discriminate | exact NH | reflexivity].
+Qed.
+
+(* ---------------------------------------------------------------------------------------------- *)
+(* typed documents                                                                                  *)
+(* ---------------------------------------------------------------------------------------------- *)
+(* The document an envelope holds is what json.Marshal writes for a Go value json.Unmarshal built:
+   `content_of r` (Digest/Typed.v) for a tree r that the typed-marshalling model wrote,
+   `reenc E fuel t j = Ok r` (Marshal/Typed.v, type descriptors regenerated from Go reflection; the
+   theorems about it are in Props/C04.v, section "typed serialisation").  For such documents the premise
+   `wf` (no duplicate member names at any depth) of the theorems above is no longer an observation about
+   encoding/json but a THEOREM: a struct writes a sub-list of its declared field names, which are pairwise
+   distinct (env_wfb / ty_wfb, re-checked on the regenerated types: typed_env_well_formed in Props/C04.v);
+   a map writes each key once; schema.Object adds `$schema` to a payload that has no such field. *)
+From Verif Require Import Marshal.Typed Marshal.Wf Gen.GoTypes Marshal.Env Digest.Typed.
+From Verif Require Digest.TypedProofs.
+From Coq Require Import Permutation.
+
+Theorem typed_output_wellformed :
+  forall E : env, env_wfb E = true ->
+  forall (fuel : nat) (t : ty) (j r : tv), ty_wfb t = true -> reenc E fuel t j = Ok r -> wf (content_of r).
+Proof. exact Digest.TypedProofs.typed_output_wellformed. Qed.
+Print Assumptions typed_output_wellformed.
+
+(* the written form of a zero value (an absent member) too *)
+Theorem typed_zero_wellformed :
+  forall E : env, env_wfb E = true ->
+  forall (fuel : nat) (t : ty) (z : tv), ty_wfb t = true -> zero_enc E fuel t = Ok z -> wf (content_of z).
+Proof. exact Digest.TypedProofs.typed_zero_wellformed. Qed.
+Print Assumptions typed_zero_wellformed.
+
+(* the generated environment: a document of a registered schema, a value of a named Go type *)
+Theorem typed_schema_document_wellformed :
+  forall (id : bytes) (j r : tv), reenc_schema id j = Ok r -> wf (content_of r).
+Proof. exact Digest.TypedProofs.typed_schema_document_wf. Qed.
+Print Assumptions typed_schema_document_wellformed.
+
+Theorem typed_value_wellformed :
+  forall (n : bytes) (j r : tv), reenc_type n j = Ok r -> wf (content_of r).
+Proof. exact Digest.TypedProofs.typed_value_wf. Qed.
+Print Assumptions typed_value_wellformed.
+
+(* The digest theorems over typed documents: the envelope e holds the typed document r (read from any
+   tree j), its document is replaced by the typed document r' (read from any tree j' at the same type).
+   No `wf` premise is left. *)
+Theorem typed_reencoding_preserves_validity :
+  forall (rest : Type) (canon : content -> bytes) (H : bytes -> bytes)
+         (structural : envelope content rest -> bool)
+         (E : env), env_wfb E = true -> forall t : ty, ty_wfb t = true ->
+    canon_invariant canon ->
+    forall (fuel fuel' : nat) (j j' r r' : tv) (e : envelope content rest),
+      reenc E fuel t j = Ok r -> reenc E fuel' t j' = Ok r' -> e_doc e = content_of r ->
+      norm (content_of r') = norm (content_of r) ->
+      structural (with_doc e (content_of r')) = structural e ->
+      validate content rest canon H structural e = Valid ->
+      validate content rest canon H structural (with_doc e (content_of r')) = Valid.
+Proof. exact Digest.TypedProofs.typed_reencoding_preserves_validity. Qed.
+Print Assumptions typed_reencoding_preserves_validity.
+
+Theorem typed_digest_tamper_evident :
+  forall (rest : Type) (canon : content -> bytes) (H : bytes -> bytes)
+         (structural : envelope content rest -> bool)
+         (E : env), env_wfb E = true -> forall t : ty, ty_wfb t = true ->
+    canon_injective canon ->
+    forall (fuel fuel' : nat) (j j' r r' : tv) (e : envelope content rest),
+      reenc E fuel t j = Ok r -> reenc E fuel' t j' = Ok r' -> e_doc e = content_of r ->
+      validate content rest canon H structural e = Valid ->
+      validate content rest canon H structural (with_doc e (content_of r')) = Valid ->
+      norm (content_of r') = norm (content_of r) \/
+      (canon (content_of r) <> canon (content_of r') /\ H (canon (content_of r)) = H (canon (content_of r'))).
+Proof. exact Digest.TypedProofs.typed_digest_tamper_evident. Qed.
+Print Assumptions typed_digest_tamper_evident.
+
+Theorem typed_tampered_is_rejected :
+  forall (rest : Type) (canon : content -> bytes) (H : bytes -> bytes)
+         (structural : envelope content rest -> bool)
+         (E : env), env_wfb E = true -> forall t : ty, ty_wfb t = true ->
+    canon_injective canon ->
+    forall (fuel fuel' : nat) (j j' r r' : tv) (e : envelope content rest),
+      reenc E fuel t j = Ok r -> reenc E fuel' t j' = Ok r' -> e_doc e = content_of r ->
+      validate content rest canon H structural e = Valid ->
+      norm (content_of r') <> norm (content_of r) ->
+      H (canon (content_of r)) <> H (canon (content_of r')) ->
+      validate content rest canon H structural (with_doc e (content_of r')) <> Valid /\
+      (structural (with_doc e (content_of r')) = true ->
+       validate content rest canon H structural (with_doc e (content_of r')) = ErrDigest).
+Proof. exact Digest.TypedProofs.typed_tampered_is_rejected. Qed.
+Print Assumptions typed_tampered_is_rejected.
+
+(* ... and over the real canonical form, for documents of a registered schema.  The `_real` theorems
+   above never needed `wf` (both sorts are the same stable sort); what they ask is in_domain, and that is
+   NOT implied by being a typed document: a Go string field carries any bytes (encodeString refuses the
+   ones that are not clean UTF-8), and `content` carries number texts in the canonical spelling of
+   c14n (a float field writes 3.5, c14n 3.5E0).  So in_domain stays a premise here. *)
+Theorem typed_reencoding_preserves_validity_real :
+  forall (rest : Type) (H : bytes -> bytes) (structural : envelope content rest -> bool)
+         (id : bytes) (j j' r r' : tv) (e : envelope content rest),
+    reenc_schema id j = Ok r -> reenc_schema id j' = Ok r' -> e_doc e = content_of r ->
+    in_domain (content_of r) = true -> in_domain (content_of r') = true ->
+    norm (content_of r') = norm (content_of r) ->
+    structural (with_doc e (content_of r')) = structural e ->
+    validate content rest real_canon H structural e = Valid ->
+    validate content rest real_canon H structural (with_doc e (content_of r')) = Valid.
+Proof. exact Digest.TypedProofs.typed_reencoding_preserves_validity_real. Qed.
+Print Assumptions typed_reencoding_preserves_validity_real.
+
+Theorem typed_digest_tamper_evident_real :
+  forall (rest : Type) (H : bytes -> bytes) (structural : envelope content rest -> bool)
+         (id : bytes) (j j' r r' : tv) (e : envelope content rest),
+    reenc_schema id j = Ok r -> reenc_schema id j' = Ok r' -> e_doc e = content_of r ->
+    in_domain (content_of r) = true -> in_domain (content_of r') = true ->
+    validate content rest real_canon H structural e = Valid ->
+    validate content rest real_canon H structural (with_doc e (content_of r')) = Valid ->
+    norm (content_of r') = norm (content_of r) \/
+    (real_canon (content_of r) <> real_canon (content_of r') /\
+     H (real_canon (content_of r)) = H (real_canon (content_of r'))).
+Proof. exact Digest.TypedProofs.typed_digest_tamper_evident_real. Qed.
+Print Assumptions typed_digest_tamper_evident_real.
+
+Theorem typed_tampered_is_rejected_real :
+  forall (rest : Type) (H : bytes -> bytes) (structural : envelope content rest -> bool)
+         (id : bytes) (j j' r r' : tv) (e : envelope content rest),
+    reenc_schema id j = Ok r -> reenc_schema id j' = Ok r' -> e_doc e = content_of r ->
+    in_domain (content_of r) = true -> in_domain (content_of r') = true ->
+    validate content rest real_canon H structural e = Valid ->
+    norm (content_of r') <> norm (content_of r) ->
+    H (real_canon (content_of r)) <> H (real_canon (content_of r')) ->
+    validate content rest real_canon H structural (with_doc e (content_of r')) <> Valid /\
+    (structural (with_doc e (content_of r')) = true ->
+     validate content rest real_canon H structural (with_doc e (content_of r')) = ErrDigest).
+Proof. exact Digest.TypedProofs.typed_tampered_is_rejected_real. Qed.
+Print Assumptions typed_tampered_is_rejected_real.
+
+(* The edits of the TEXT that leave no trace - the blind spot recorded above as
+   every_text_edit_evident_refuted, now exactly delimited for struct types: a text whose members are
+   permuted, or extended by members no field listens to, is read to the SAME typed document (doc_of: the
+   same content, or the same failure) ... *)
+Theorem member_order_leaves_no_trace :
+  forall (E : env) (fuel : nat) (h : hook) (fs : list field) (m m2 : list (bytes * tv)),
+    Permutation m m2 ->
+    doc_of (reenc E fuel (TyStruct h fs) (TObj m2)) = doc_of (reenc E fuel (TyStruct h fs) (TObj m)).
+Proof. exact Digest.TypedProofs.member_order_no_trace. Qed.
+Print Assumptions member_order_leaves_no_trace.
+
+Theorem unknown_members_leave_no_trace :
+  forall (E : env) (fuel : nat) (h : hook) (fs : list field) (m1 x m2 : list (bytes * tv)),
+    (forall kv n, In kv x -> In n (map f_name fs ++ hook_names h) -> fold_eq (fst kv) n = false) ->
+    members_in_domain (map f_name fs ++ hook_names h) (m1 ++ x ++ m2) = true ->
+    doc_of (reenc E fuel (TyStruct h fs) (TObj (m1 ++ x ++ m2))) =
+    doc_of (reenc E fuel (TyStruct h fs) (TObj (m1 ++ m2))).
+Proof. exact Digest.TypedProofs.unknown_members_no_trace. Qed.
+Print Assumptions unknown_members_leave_no_trace.
+
+(* ... hence the same canonical bytes, the same digest, and the same verdict of the envelope holding it,
+   for ANY canonicaliser and hash *)
+Theorem member_order_keeps_digest_and_verdict :
+  forall (rest : Type) (canon : content -> bytes) (H : bytes -> bytes)
+         (structural : envelope content rest -> bool)
+         (E : env) (fuel : nat) (h : hook) (fs : list field) (m m2 : list (bytes * tv)) (r r2 : tv)
+         (e : envelope content rest),
+    Permutation m m2 ->
+    reenc E fuel (TyStruct h fs) (TObj m) = Ok r -> reenc E fuel (TyStruct h fs) (TObj m2) = Ok r2 ->
+    e_doc e = content_of r ->
+    content_of r2 = content_of r /\
+    canon (content_of r2) = canon (content_of r) /\
+    digest_of content canon H (content_of r2) = digest_of content canon H (content_of r) /\
+    validate content rest canon H structural (with_doc e (content_of r2)) =
+    validate content rest canon H structural e.
+Proof. exact Digest.TypedProofs.member_order_keeps_verdict. Qed.
+Print Assumptions member_order_keeps_digest_and_verdict.
+
+Theorem unknown_members_keep_digest_and_verdict :
+  forall (rest : Type) (canon : content -> bytes) (H : bytes -> bytes)
+         (structural : envelope content rest -> bool)
+         (E : env) (fuel : nat) (h : hook) (fs : list field) (m1 x m2 : list (bytes * tv)) (r r2 : tv)
+         (e : envelope content rest),
+    (forall kv n, In kv x -> In n (map f_name fs ++ hook_names h) -> fold_eq (fst kv) n = false) ->
+    members_in_domain (map f_name fs ++ hook_names h) (m1 ++ x ++ m2) = true ->
+    reenc E fuel (TyStruct h fs) (TObj (m1 ++ m2)) = Ok r ->
+    reenc E fuel (TyStruct h fs) (TObj (m1 ++ x ++ m2)) = Ok r2 ->
+    e_doc e = content_of r ->
+    content_of r2 = content_of r /\
+    canon (content_of r2) = canon (content_of r) /\
+    digest_of content canon H (content_of r2) = digest_of content canon H (content_of r) /\
+    validate content rest canon H structural (with_doc e (content_of r2)) =
+    validate content rest canon H structural e.
+Proof. exact Digest.TypedProofs.unknown_members_keep_verdict. Qed.
+Print Assumptions unknown_members_keep_digest_and_verdict.
+
+(* the same for a whole document of a registered schema whose Go type is a struct, each tree read with the
+   fuel the runner computes from it (the trees may differ in depth) *)
+Theorem schema_document_member_order_leaves_no_trace :
+  forall (id n : bytes) (h : hook) (fs : list field) (m m2 : list (bytes * tv)) (r : tv),
+    assoc id go_schemas = Some (TyRef n) -> assoc n go_types = Some (TyStruct h fs) ->
+    Permutation m m2 ->
+    (reenc_schema id (TObj m2) = Ok r <-> reenc_schema id (TObj m) = Ok r).
+Proof. exact Digest.TypedProofs.schema_member_order_no_trace. Qed.
+Print Assumptions schema_document_member_order_leaves_no_trace.
+
+Theorem schema_document_unknown_members_leave_no_trace :
+  forall (id n : bytes) (h : hook) (fs : list field) (m1 x m2 : list (bytes * tv)) (r : tv),
+    assoc id go_schemas = Some (TyRef n) -> assoc n go_types = Some (TyStruct h fs) ->
+    (forall kv k, In kv x -> In k (map f_name fs ++ hook_names h) -> fold_eq (fst kv) k = false) ->
+    members_in_domain (map f_name fs ++ hook_names h) (m1 ++ x ++ m2) = true ->
+    (reenc_schema id (TObj (m1 ++ x ++ m2)) = Ok r <-> reenc_schema id (TObj (m1 ++ m2)) = Ok r).
+Proof. exact Digest.TypedProofs.schema_unknown_members_no_trace. Qed.
+Print Assumptions schema_document_unknown_members_leave_no_trace.
+
+(* ---- non-vacuity: a note.Message read through its registered schema.  The text has its members in
+   scrambled order, a member no field listens to, a null title, a map with a duplicate and unsorted keys ---- *)
+Definition tmsg_schema : bytes := bs "https://gobl.org/draft-0/note/message".
+Definition tmsg_unknown : list (bytes * tv) := [(bs "x-unknown", TArr [TNum (bs "1"); TObj [(bs "a", TNull); (bs "a", TNull)]])].
+Definition tmsg_before : list (bytes * tv) :=
+  [(bs "meta", TObj [(bs "b", TStr (bs "2")); (bs "a", TStr (bs "1")); (bs "b", TStr (bs "3"))])].
+Definition tmsg_after : list (bytes * tv) := [(bs "content", TStr (bs "hello")); (bs "title", TNull)].
+Definition tmsg_text : tv := TObj (tmsg_before ++ tmsg_unknown ++ tmsg_after).
+Definition tmsg_text_plain : tv := TObj (tmsg_before ++ tmsg_after).
+Definition tmsg_text_permuted : tv := TObj (tmsg_after ++ tmsg_before).
+Definition tmsg_text_edited : tv := TObj (tmsg_before ++ [(bs "content", TStr (bs "hullo"))]).
+Definition tmsg_doc : tv :=
+  TObj [(bs "content", TStr (bs "hello"));
+        (bs "meta", TObj [(bs "a", TStr (bs "1")); (bs "b", TStr (bs "3"))])].
+Definition tmsg_fields : list field :=
+  [mkF (bs "uuid") true (TyLeaf LUUID); mkF (bs "title") true (TyLeaf LStr);
+   mkF (bs "content") false (TyLeaf LStr); mkF (bs "meta") true (TyMap (TyLeaf LStr))].
+
+Example typed_documents_nonvacuous :
+  (* the typed document; it is well formed and in the domain of real_canon *)
+  reenc_schema tmsg_schema tmsg_text = Ok tmsg_doc /\
+  wf (content_of tmsg_doc) /\ in_domain (content_of tmsg_doc) = true /\
+  (* the unknown member (itself with duplicate names inside) and the member order leave no trace *)
+  tmsg_text <> tmsg_text_plain /\
+  doc_of (reenc_schema tmsg_schema tmsg_text) = doc_of (reenc_schema tmsg_schema tmsg_text_plain) /\
+  doc_of (reenc_schema tmsg_schema tmsg_text_permuted) = doc_of (reenc_schema tmsg_schema tmsg_text_plain) /\
+  (* an edit of a member the type listens to does: other content, and with an injective hash a digest error *)
+  (exists r', reenc_schema tmsg_schema tmsg_text_edited = Ok r' /\
+     norm (content_of r') <> norm (content_of tmsg_doc) /\
+     exists e1, calculate content unit real_canon H_id Some (Envelope.mkEnv tt None (content_of tmsg_doc)) = Some e1 /\
+       validate content unit real_canon H_id all_ok e1 = Valid /\
+       validate content unit real_canon H_id all_ok (with_doc e1 (content_of r')) = ErrDigest) /\
+  (* the hypotheses of the schema-level theorems, for this type *)
+  assoc tmsg_schema go_schemas = Some (TyRef (bs "note.Message")) /\
+  assoc (bs "note.Message") go_types = Some (TyStruct HNone tmsg_fields) /\
+  (forall kv k, In kv tmsg_unknown -> In k (map f_name tmsg_fields ++ hook_names HNone) -> fold_eq (fst kv) k = false) /\
+  members_in_domain (map f_name tmsg_fields ++ hook_names HNone) (tmsg_before ++ tmsg_unknown ++ tmsg_after) = true /\
+  Permutation (tmsg_before ++ tmsg_after) (tmsg_after ++ tmsg_before).
+Proof.
+  split; [vm_compute; reflexivity|].
+  split; [apply Digest.LinkProofs.wf_wfb; vm_compute; reflexivity|].
+  split; [vm_compute; reflexivity|].
+  split; [vm_compute; discriminate|].
+  split; [vm_compute; reflexivity|].
+  split; [vm_compute; reflexivity|].
+  split.
+  { eexists. split; [vm_compute; reflexivity|]. split; [vm_compute; discriminate|].
+    eexists. split; [vm_compute; reflexivity|]. split; vm_compute; reflexivity. }
+  split; [vm_compute; reflexivity|].
+  split; [vm_compute; reflexivity|].
+  split.
+  { intros kv k [<-|[]] Hk. cbn in Hk.
+    repeat (destruct Hk as [<-|Hk]; [vm_compute; reflexivity|]). contradiction. }
+  split; [vm_compute; reflexivity|].
+  apply Permutation_app_comm.
+Qed.
+
+(* the theorems applied to it: from the reading of the plain text alone, the readings of the extended and
+   of the permuted text (theorems, not computation), and the verdict of an envelope for an ARBITRARY hash *)
+Example typed_theorems_apply :
+  reenc_schema tmsg_schema tmsg_text = Ok tmsg_doc /\
+  reenc_schema tmsg_schema tmsg_text_permuted = Ok tmsg_doc /\
+  forall (H : bytes -> bytes) (e1 : envelope content unit) (r' : tv),
+    calculate content unit real_canon H Some (Envelope.mkEnv tt None (content_of tmsg_doc)) = Some e1 ->
+    reenc_schema tmsg_schema tmsg_text_edited = Ok r' ->
+    H (real_canon (content_of tmsg_doc)) <> H (real_canon (content_of r')) ->
+    validate content unit real_canon H all_ok (with_doc e1 (content_of r')) = ErrDigest.
+Proof.
+  destruct typed_documents_nonvacuous as (_ & _ & _ & _ & _ & _ & _ & A & B & U & M & P).
+  assert (R : reenc_schema tmsg_schema tmsg_text_plain = Ok tmsg_doc) by (vm_compute; reflexivity).
+  split; [apply (schema_document_unknown_members_leave_no_trace _ _ _ _ _ _ _ _ A B U M); exact R|].
+  split; [apply (schema_document_member_order_leaves_no_trace _ _ _ _ _ _ _ A B P); exact R|].
+  intros H e1 r' C R' NH.
+  assert (V : validate content unit real_canon H all_ok e1 = Valid)
+    by (apply (calculated_validates unit real_canon H all_ok Some _ e1 C); reflexivity).
+  injection C as <-.
+  assert (E' : r' = TObj [(bs "content", TStr (bs "hullo"));
+                          (bs "meta", TObj [(bs "a", TStr (bs "1")); (bs "b", TStr (bs "3"))])])
+    by (vm_compute in R'; injection R' as <-; reflexivity).
+  apply (typed_tampered_is_rejected_real unit H all_ok tmsg_schema tmsg_text_plain tmsg_text_edited tmsg_doc r');
+    [exact R | exact R' | reflexivity | vm_compute; reflexivity | subst r'; vm_compute; reflexivity
+     | exact V | subst r'; vm_compute; discriminate | exact NH | reflexivity].
 Qed.
